@@ -168,8 +168,8 @@ package ovmf
 //@   loop 2 invariant[C05] (0 <= kk && kk <= rangeindex ==> resDescAt(wrLog[tdHOBbuf], 56 + 48 * (len(privateResources) + kk), 7, 7 + ite(ite(unacceptedResources[kk].Start + unacceptedResources[kk].Length >= 18446744073709551616, unacceptedResources[kk].Start + unacceptedResources[kk].Length - 18446744073709551616, unacceptedResources[kk].Start + unacceptedResources[kk].Length) <= 4294967296 || !p.DisableEarlyAccept, 268435456, 0), unacceptedResources[kk].Start, unacceptedResources[kk].Length))
 //@   sweep[C08]
 //@   alloc 512 * (len(privateResources) + len(unacceptedResources)) + 4096
-//@   loop 1 invariant forall(r, Int, !fresh(r) ==> wrLen[r] == old(wrLen)[r] && wrLog[r] == old(wrLog)[r] && rdLeft[r] == old(rdLeft)[r]) && tdHOBbuf != nil && fresh(tdHOBbuf) && alloc <= 1024 + 300 * (rangeindex + 1) + ite(gpr.Length < 9223372036854775808, gpr.Length, 0)
-//@   loop 2 invariant forall(r, Int, !fresh(r) ==> wrLen[r] == old(wrLen)[r] && wrLog[r] == old(wrLog)[r] && rdLeft[r] == old(rdLeft)[r]) && tdHOBbuf != nil && fresh(tdHOBbuf) && alloc <= 1024 + 300 * len(privateResources) + 300 * (rangeindex + 1) + ite(gpr.Length < 9223372036854775808, gpr.Length, 0)
+//@   loop 1 invariant forall(r, Int, !fresh(r) ==> wrLen[r] == old(wrLen)[r] && wrLog[r] == old(wrLog)[r] && rdLeft[r] == old(rdLeft)[r]) && tdHOBbuf != nil && fresh(tdHOBbuf) && alloc <= 1024 + 300 * (rangeindex + 1) + ite(gpr.Length < 9223372036854775808, gpr.Length, 0) && gpr.Length == pre(gpr.Length)
+//@   loop 2 invariant forall(r, Int, !fresh(r) ==> wrLen[r] == old(wrLen)[r] && wrLog[r] == old(wrLog)[r] && rdLeft[r] == old(rdLeft)[r]) && tdHOBbuf != nil && fresh(tdHOBbuf) && alloc <= 1024 + 300 * len(privateResources) + 300 * (rangeindex + 1) + ite(gpr.Length < 9223372036854775808, gpr.Length, 0) && gpr.Length == pre(gpr.Length)
 
 // (No allocation budget is stated for parse: the zero-filled buffers of TD HOB / temp-memory sections are sized by
 // the metadata alone, which is the recorded C08 finding at the make() below; see /verif/known_findings.txt.)
